@@ -1,1 +1,3 @@
 import OratioModel
+import OratioProofs.Lemmas.SatCoreCons
+import OratioProofs.Lemmas.SatCoreMain
